@@ -2002,6 +2002,13 @@ def small_alphabet(reduced: bool = False) -> list[dict]:
         {"op": "insertAfter", "g": 0, "a": 1, "ns": [0, 0]},
         {"op": "sort", "g": 1},
         {"op": "sort", "g": 0, "via": "function"},
+        # the Function / Node spellings of the membership calls (every mapped entry of API_TABLE is in this alphabet)
+        {"op": "insertBefore", "g": 0, "a": 1, "ns": [2], "via": "function"},
+        {"op": "insertAfter", "g": 0, "a": 0, "ns": [2, 1], "via": "function"},
+        {"op": "remove", "g": 0, "ns": [1], "safe": False, "via": "function"},
+        {"op": "extend", "g": 0, "ns": [2, 0], "via": "function"},
+        {"op": "insertAfter", "g": 0, "a": 0, "ns": [1], "via": "node"},
+        {"op": "io", "g": 0, "kind": "inp", "m": "append", "v": 2, "via": "function"},
         {"op": "newValueProd", "n": 0, "i": 0, "name": None},
         {"op": "append", "g": 1, "n": 1, "via": "function"},
         {"op": "io", "g": 1, "kind": "out", "m": "append", "v": 5, "via": "function"},
@@ -2462,7 +2469,7 @@ _tbl("tape", Tape=M("see Tape"))
 # members inherited by Builder / counted through another key
 _COUNT_ALIAS = {"Builder.op": "Tape.op", "Builder.op_multi_out": "Tape.op_multi_out", "Builder.initializer": "Tape.initializer",
                 "tape.Tape": "Tape.__init__"}
-ALPHABET_MIN = 20
+ALPHABET_MIN = 100
 
 _DUNDER_IGNORE = {
     "__dict__", "__weakref__", "__module__", "__doc__", "__slots__", "__annotations__", "__abstractmethods__",
